@@ -6,8 +6,8 @@ package interp
 
 import (
 	"go/token"
-	"strings"
 	"go/types"
+	"strings"
 
 	"verif/engine/sym"
 )
